@@ -57,10 +57,11 @@ reader:
 			// the middle of its body.
 			exceeded, has := buffer.UnwrapMessageSizeExceeded(err)
 			if has {
-				serr := r.Slurp(exceeded.Size)
-				if serr != nil {
-					return serr
-				}
+				// NOTE: when the connection ends inside the oversized message
+				// the copy is still aborted because of that message, the end
+				// of the connection must not be taken for the end of the copy
+				// stream (io.EOF).
+				_ = r.Slurp(exceeded.Size)
 			}
 
 			return err
